@@ -426,9 +426,9 @@ func checkCallIDFlags(w *core.Worker, s []byte) {
 func RunC20(r *core.Run) {
 	r.Rule = "case = one text; ContainsIP4 / IP4Prefix are compared with a backtracking reference matcher for d{1,3}(.d{1,3}){3}, groups <= 255: found <=> some substring matches, the reported span is a full match whose groups are the returned bytes, the prefix test is true <=> a match starts at 0, stops at the end of the longest one with OK / more-values (digit follows) / bad-char; GetCallIDSig's IP position flags must agree with the search result on the same text; enumerated stages are exhaustive over their alphabet; non-trivial = the text contains an address (or, for near-misses, contains three dots); distinct by construction / hash"
 	r.Assume = []string{"any matching substring may be reported (leftmost is not demanded)"}
-	alpha, L := "01259.x", 8
+	alpha, L := "0125.x", 10
 	if !r.Quick() {
-		alpha, L = "012569.x", 10
+		alpha, L = "012569.x", 11
 	}
 	es := NewEnum(alpha, L)
 	st := r.Stage("enum", es.Size(), func(w *core.Worker, idx int64) {
